@@ -81,15 +81,20 @@ StreamsManagerBase<MAX_STREAMS> {
 
     /// Creates the room for a new `Stream`, but returns only its `stream_id`, leaving the `Stream` creation per-se to the caller.
     pub fn create_stream_id(&self) -> u32 {
+        #[cfg(feature = "verif")] crate::verif::yield_point();
         self.created_streams_count.fetch_add(1, Relaxed);
+        #[cfg(feature = "verif")] crate::verif::yield_point();
         self.used_streams_count.fetch_add(1, Relaxed);
+        #[cfg(feature = "verif")] crate::verif::yield_point();
         let stream_id = match self.vacant_streams.consume_movable() {
             Some(stream_id) => stream_id,
             None => panic!("StreamsManager: '{}' has a MAX_STREAMS of {MAX_STREAMS} -- which just got exhausted: stats: {} streams were created; {} dropped. Please, increase the limit or fix the LOGIC BUG!",
                            self.streams_manager_name, self.created_streams_count.load(Relaxed), self.finished_streams_count.load(Relaxed)),
         };
         let keep_streams_running = unsafe { &mut * self.keep_streams_running.get() };
+        #[cfg(feature = "verif")] crate::verif::yield_point();
         keep_streams_running[stream_id as usize] = true;
+        #[cfg(feature = "verif")] crate::verif::yield_point();
         self.sync_vacant_and_used_streams();
         stream_id
     }
@@ -98,12 +103,15 @@ StreamsManagerBase<MAX_STREAMS> {
     #[inline(always)]
     pub fn wake_stream(&self, stream_id: u32) {
         let wakers = unsafe { &* self.wakers.get() };
+        #[cfg(feature = "verif")] crate::verif::yield_point();
         match unsafe {wakers.get_unchecked(stream_id as usize)} {
             Some(waker) => waker.wake_by_ref(),
             None => {
                 // try again, syncing
+                #[cfg(feature = "verif")] crate::verif::yield_point();
                 ogre_sync::lock(&self.wakers_lock);
                 if let Some(waker) = unsafe {wakers.get_unchecked(stream_id as usize)} {
+                    #[cfg(feature = "verif")] crate::verif::yield_point();
                     waker.wake_by_ref();
                 }
                 ogre_sync::unlock(&self.wakers_lock);
@@ -148,6 +156,7 @@ StreamsManagerBase<MAX_STREAMS> {
     /// Also guarantees that it will be awoken to react to the command immediately
     pub fn cancel_stream(&self, stream_id: u32) {
         let keep_streams_running = unsafe { &mut * self.keep_streams_running.get() };
+        #[cfg(feature = "verif")] crate::verif::yield_point();
         keep_streams_running[stream_id as usize] = false;
         self.wake_stream(stream_id);
     }
@@ -160,6 +169,7 @@ StreamsManagerBase<MAX_STREAMS> {
             if *stream_id == u32::MAX {
                 break
             }
+            #[cfg(feature = "verif")] crate::verif::yield_point();
             self.cancel_stream(*stream_id);
         }
     }
@@ -172,16 +182,19 @@ StreamsManagerBase<MAX_STREAMS> {
         macro_rules! set {
             () => {
                 let waker = waker.clone();
+                #[cfg(feature = "verif")] crate::verif::yield_point();
                 ogre_sync::lock(&self.wakers_lock);
                 let waker = unsafe { wakers.get_unchecked_mut(stream_id as usize).insert(waker) };
                 ogre_sync::unlock(&self.wakers_lock);
                 // the producer might have just woken the old version of the waker,
                 // so the following waking up line is needed to assure the consumers won't ever hang
                 // (as demonstrated by tests)
+                #[cfg(feature = "verif")] crate::verif::yield_point();
                 waker.wake_by_ref();
             }
         }
 
+        #[cfg(feature = "verif")] crate::verif::yield_point();
         match unsafe { wakers.get_unchecked_mut(stream_id as usize) } {
             Some(registered_waker) => {
                 if !registered_waker.will_wake(waker) {
@@ -206,12 +219,17 @@ StreamsManagerBase<MAX_STREAMS> {
     ///   4) Consumer #1, since it was not dropped, will be awaken and will run until the channel is empty again -- consuming both elements.
     pub fn report_stream_dropped(&self, stream_id: u32) {
         let wakers = unsafe { &mut * self.wakers.get() };
+        #[cfg(feature = "verif")] crate::verif::yield_point();
         ogre_sync::lock(&self.wakers_lock);
         wakers[stream_id as usize] = None;
         ogre_sync::unlock(&self.wakers_lock);
+        #[cfg(feature = "verif")] crate::verif::yield_point();
         self.finished_streams_count.fetch_add(1, Relaxed);
+        #[cfg(feature = "verif")] crate::verif::yield_point();
         self.used_streams_count.fetch_sub(1, Relaxed);
+        #[cfg(feature = "verif")] crate::verif::yield_point();
         self.vacant_streams.publish_movable(stream_id);
+        #[cfg(feature = "verif")] crate::verif::yield_point();
         self.sync_vacant_and_used_streams();
     }
 
@@ -226,6 +244,7 @@ StreamsManagerBase<MAX_STREAMS> {
     #[inline(always)]
     fn sync_vacant_and_used_streams(&self) {
         let used_streams = unsafe { &mut * self.used_streams.get() };
+        #[cfg(feature = "verif")] crate::verif::yield_point();
         ogre_sync::lock(&self.streams_lock);
         let mut vacant = unsafe { self.vacant_streams.peek_remaining().concat() };
         vacant.sort_unstable();
@@ -237,20 +256,24 @@ StreamsManagerBase<MAX_STREAMS> {
                 Some(next_vacant_stream_id) => {
                     for used_stream_id in i .. *next_vacant_stream_id {
                         last_used_stream_id += 1;
+                        #[cfg(feature = "verif")] crate::verif::yield_point();
                         unsafe { *used_streams.get_unchecked_mut(last_used_stream_id as usize)  = used_stream_id };
                     }
                     i = *next_vacant_stream_id + 1;
                 }
                 None => {
                     last_used_stream_id += 1;
+                    #[cfg(feature = "verif")] crate::verif::yield_point();
                     unsafe { *used_streams.get_unchecked_mut(last_used_stream_id as usize) = i };
                     i += 1;
                 }
             }
         }
         for i in (last_used_stream_id + 1) as usize .. MAX_STREAMS {
+            #[cfg(feature = "verif")] crate::verif::yield_point();
             unsafe { *used_streams.get_unchecked_mut(i) = u32::MAX };
         }
+        #[cfg(feature = "verif")] crate::verif::yield_point();
         ogre_sync::unlock(&self.streams_lock);
     }
 
